@@ -130,6 +130,12 @@ func ruleKIPropagate(p *Prog, r *Reporter) {
 						}
 					}
 				}
+				// unconditionally: every identifier (0 and 2^32-1 included) is recorded
+				for _, ret := range returnsOf(f) {
+					if !(st.Block() == ret.Block() || st.Block().Dominates(ret.Block())) {
+						ok = false
+					}
+				}
 			}
 		}
 		r.Check(ok, p.Pos(f.Pos()), p.FuncName(f), "store rootKeyID", "stores the option's identifier", "does not store the option's identifier into rootKeyID")
